@@ -238,6 +238,9 @@ struct Tracked : std::conditional<KIND == 0, DeclaresRelocatable, DeclaresNothin
   Tracked(const Tracked &o) noexcept(KIND == 4) {
     static_assert(KIND != 2, "move-only");
     if (KIND != 4) fault_point();
+    // an object constructed from itself: the source is the very slot under construction, i.e. raw memory (a relocated-from or shifted slot) that is
+    // read as if it still held an element. A real type (a container, a string) would come out empty or corrupt.
+    if (static_cast<const void *>(&o) == static_cast<const void *>(this)) violation("C02,C10", "ledger.constructed_from_itself", fmt("%s object copy-constructed from the slot it is being constructed in", kname()));
     o.check_live("read(copy-ctor source)");
     key = o.key;
     pay = o.pay;
@@ -245,6 +248,7 @@ struct Tracked : std::conditional<KIND == 0, DeclaresRelocatable, DeclaresNothin
   }
   Tracked(Tracked &&o) noexcept(KIND != 3 && KIND != 4) {
     if (KIND == 3 || KIND == 4) fault_point();
+    if (static_cast<const void *>(&o) == static_cast<const void *>(this)) violation("C02,C10", "ledger.constructed_from_itself", fmt("%s object move-constructed from the slot it is being constructed in", kname()));
     o.check_live("read(move-ctor source)");
     key = o.key;
     pay = o.pay;
